@@ -109,8 +109,8 @@ Print Assumptions c19_scan_no_duplicates.
 
 (* [mfile_ok pos f]: containers back to back from [pos]; inside a container the stored landmark
    of every slice but the first is the previous landmark plus the previous slice's true size and
-   the last slice ends the body ([sl_ok]); every slice is non-empty, carries the context the
-   writer computes and records with start <= end <= usize::MAX.
+   the last slice ends the body ([sl_ok]); every slice is non-empty (records and bytes), carries
+   the context the writer computes and records with start <= end <= usize::MAX.
    The index lists every slice of every container, with the slice's own landmark and size. *)
 Theorem c19_multislice_index_lists_every_slice :
   forall pos f, mfile_ok pos f -> index_m pos f = Ok (flat_map mspec_entries f).
@@ -156,48 +156,86 @@ Theorem c19_multislice_span_covers_records :
 Proof. exact index_m_span_covers_records. Qed.
 Print Assumptions c19_multislice_span_covers_records.
 
-(* what Reader::query returns on such files, for any record filter: per container, the filtered
-   records of the WHOLE container once per slice that holds a record of the queried reference *)
+(* what Reader::query returns on such files, for ANY record filter (after the repair 944089d:
+   only the slice at the entry's landmark is decoded): slice after slice in file order, the
+   filtered records of exactly the slices that hold a record of the queried reference *)
 Theorem c19_multislice_query_characterised :
   forall sel pos f es r lo hi, mfile_ok pos f -> index_m pos f = Ok es ->
     query_m sel es f r lo hi =
-    flat_map (fun c => flat_map (fun s => if existsb (on_ref r) (s_recs s)
-                                          then filter (sel r lo hi) (m_recs c) else []) (m_slices c)) f.
+    Ok (flat_map (fun c => flat_map (fun s => if existsb (on_ref r) (s_recs s)
+                                              then filter (sel r lo hi) (s_recs s) else []) (m_slices c)) f).
 Proof. exact query_m_characterised. Qed.
 Print Assumptions c19_multislice_query_characterised.
 
-(* hence query = scan exactly when no container has two slices holding the queried reference ... *)
+(* hence query = scan on EVERY well-formed file, whatever the number of slices per container
+   and however the references are spread over them: the records on the named reference that
+   intersect the region, in file order, each once *)
 Theorem c19_multislice_query_equals_scan :
   forall pos f es r lo hi, mfile_ok pos f -> index_m pos f = Ok es ->
-    (forall c, In c f -> (length (holders r c) <= 1)%nat) ->
-    query_m selected es f r lo hi = scan_m f r lo hi.
+    query_m selected es f r lo hi = Ok (scan_m f r lo hi).
 Proof. exact query_m_equals_scan. Qed.
 Print Assumptions c19_multislice_query_equals_scan.
 
-(* ... and records are returned twice otherwise (finding
-   cram-query-multislice-container-records-repeated; not reachable with files noodles writes) *)
-Theorem c19_query_multislice_duplicates :
+(* an index entry whose landmark is not a slice of its container is an error, not an answer *)
+Theorem c19_query_bad_landmark_is_invalid_data :
   exists pos f es r lo hi, mfile_ok pos f /\ index_m pos f = Ok es /\
-    map rname (query_m selected es f r lo hi) = [0; 1; 0; 1] /\ map rname (scan_m f r lo hi) = [0; 1].
-Proof. exact query_m_duplicates. Qed.
-Print Assumptions c19_query_multislice_duplicates.
+    query_m selected (bump_landmark 1 es) f r lo hi = ErrInvalidData.
+Proof.
+  exists 100, dup_witness, (flat_map mspec_entries dup_witness), 0, 1, 100.
+  split; [exact dup_witness_ok|]. split; [rewrite (index_m_spec _ _ dup_witness_ok); reflexivity|].
+  exact query_m_bad_landmark.
+Qed.
+Print Assumptions c19_query_bad_landmark_is_invalid_data.
+
+(* History (finding cram-query-multislice-container-records-repeated, repaired by 944089d): the
+   old query [query_m_v0] decoded the whole container for every entry; it agreed with the scan
+   only when no container had two slices on the queried reference and returned records twice
+   otherwise. *)
+Theorem c19_query_v0_equals_scan_single_holder :
+  forall pos f es r lo hi, mfile_ok pos f -> index_m pos f = Ok es ->
+    (forall c, In c f -> (length (holders r c) <= 1)%nat) ->
+    query_m_v0 selected es f r lo hi = scan_m f r lo hi.
+Proof. exact query_m_v0_equals_scan. Qed.
+Print Assumptions c19_query_v0_equals_scan_single_holder.
+
+Theorem c19_query_v0_multislice_duplicates_refuted :
+  exists pos f es r lo hi, mfile_ok pos f /\ index_m pos f = Ok es /\
+    map rname (query_m_v0 selected es f r lo hi) = [0; 1; 0; 1] /\ map rname (scan_m f r lo hi) = [0; 1].
+Proof. exact query_m_v0_duplicates. Qed.
+Print Assumptions c19_query_v0_multislice_duplicates_refuted.
 
 (* ---- query_unmapped ------------------------------------------------------------------------ *)
 
-(* query_unmapped through the index returns exactly the unplaced records a scan keeps, in file
-   order, each once -- for every well-formed file (any number of slices per container) that
-   holds an unplaced record and in which, from the first container holding one on, the UNMAPPED
-   flag is set exactly on the unplaced records ([tail_clean]) *)
+(* query_unmapped through the index (after the repairs 47f309c, 5cbbdb3) returns, on EVERY
+   well-formed file (any number of slices per container, no sortedness, with or without unplaced
+   records), exactly the records a scan keeps with the same test -- no reference id and the
+   UNMAPPED flag -- in file order, each once *)
+Theorem c19_query_unmapped_equals_scan_flagged :
+  forall pos f es, mfile_ok pos f -> index_m pos f = Ok es ->
+    query_unmapped es f = Ok (filter unplaced_flagged (flat_map m_recs f)).
+Proof. exact query_unmapped_equals_scan_flagged. Qed.
+Print Assumptions c19_query_unmapped_equals_scan_flagged.
+
+(* ... which are ALL the unplaced records when unplaced records carry the flag (SAM: a record
+   without RNAME is unmapped) *)
 Theorem c19_query_unmapped_equals_scan :
-  forall pos f es, mfile_ok pos f -> index_m pos f = Ok es -> tail_clean f ->
-    existsb is_unmapped (flat_map m_recs f) = true ->
+  forall pos f es, mfile_ok pos f -> index_m pos f = Ok es ->
+    Forall (fun x => is_unmapped x = true -> runm x = true) (flat_map m_recs f) ->
     query_unmapped es f = Ok (scan_unplaced f).
 Proof. exact query_unmapped_equals_scan. Qed.
 Print Assumptions c19_query_unmapped_equals_scan.
 
-(* in a coordinate-sorted file (everything after an unplaced record is unplaced) whose unplaced
-   records carry the flag, [tail_clean] only excludes a placed record with the UNMAPPED flag in
-   the container of the first unplaced record *)
+(* History (findings cram-query-unmapped-no-unplaced-records-errors, repaired by 47f309c, and
+   cram-query-unmapped-returns-placed-records-of-boundary-container, repaired by 5cbbdb3): the
+   old [query_unmapped_v0] gave the scan's answer only on files that hold an unplaced record and
+   are [tail_clean] ... *)
+Theorem c19_query_unmapped_v0_equals_scan_tail_clean :
+  forall pos f es, mfile_ok pos f -> index_m pos f = Ok es -> tail_clean f ->
+    existsb is_unmapped (flat_map m_recs f) = true ->
+    query_unmapped_v0 es f = Ok (scan_unplaced f).
+Proof. exact query_unmapped_v0_equals_scan. Qed.
+Print Assumptions c19_query_unmapped_v0_equals_scan_tail_clean.
+
 Theorem c19_tail_clean_of_sorted :
   forall f,
     Forall (fun x => is_unmapped x = true -> runm x = true) (flat_map m_recs f) ->
@@ -208,25 +246,22 @@ Theorem c19_tail_clean_of_sorted :
 Proof. exact tail_clean_sorted. Qed.
 Print Assumptions c19_tail_clean_of_sorted.
 
-(* the two input classes where the faithful model does NOT give the scan's answer:
-   no unplaced record at all -> Err(UnexpectedEof) instead of the empty answer
-   (finding cram-query-unmapped-no-unplaced-records-errors) *)
-Theorem c19_query_unmapped_none_refuted :
+(* ... failed with UnexpectedEof when there was no unplaced record ... *)
+Theorem c19_query_unmapped_v0_none_refuted :
   forall pos f es, mfile_ok pos f -> index_m pos f = Ok es ->
     existsb is_unmapped (flat_map m_recs f) = false ->
-    query_unmapped es f = ErrUnexpectedEof /\ scan_unplaced f = [].
-Proof. exact query_unmapped_none_errors. Qed.
-Print Assumptions c19_query_unmapped_none_refuted.
+    query_unmapped_v0 es f = ErrUnexpectedEof /\ scan_unplaced f = [].
+Proof. exact query_unmapped_v0_none_errors. Qed.
+Print Assumptions c19_query_unmapped_v0_none_refuted.
 
-(* a placed record with the UNMAPPED flag in the boundary container is returned, one in an
-   earlier container is not (finding cram-query-unmapped-returns-placed-records-of-boundary-container) *)
-Theorem c19_query_unmapped_boundary_refuted :
+(* ... and returned a placed record with the UNMAPPED flag of the boundary container *)
+Theorem c19_query_unmapped_v0_boundary_refuted :
   exists pos f es, mfile_ok pos f /\ index_m pos f = Ok es /\
-    option_map (map rname) (match query_unmapped es f with Ok l => Some l | _ => None end) = Some [1; 2] /\
+    option_map (map rname) (match query_unmapped_v0 es f with Ok l => Some l | _ => None end) = Some [1; 2] /\
     map rname (scan_unplaced f) = [2] /\
     map rname (filter runm (flat_map m_recs f)) = [0; 1; 2].
-Proof. exact query_unmapped_boundary. Qed.
-Print Assumptions c19_query_unmapped_boundary_refuted.
+Proof. exact query_unmapped_v0_boundary. Qed.
+Print Assumptions c19_query_unmapped_v0_boundary_refuted.
 
 (* ---- through a .crai file (NV.CramIdx.Transport over C17's NV.Index.TextIndex) ------------ *)
 
@@ -357,9 +392,12 @@ Example c19_example_mindex :
 Proof. vm_compute. reflexivity. Qed.
 
 Example c19_example_mquery :
-  map rname (query_m selected (flat_map mspec_entries c19_example_mfile) c19_example_mfile 1 1 50) = [3; 4] /\
-  map rname (query_m selected (flat_map mspec_entries c19_example_mfile) c19_example_mfile 0 1 50) = [0; 1; 2; 0; 1; 2].
-Proof. vm_compute. split; reflexivity. Qed.
+  query_m selected (flat_map mspec_entries c19_example_mfile) c19_example_mfile 1 1 50
+  = Ok [mkrec 3 (Some 1) 3 12 false; mkrec 4 (Some 1) 20 21 true] /\
+  option_map (map rname) (match query_m selected (flat_map mspec_entries c19_example_mfile) c19_example_mfile 0 1 50
+                          with Ok l => Some l | _ => None end) = Some [0; 1; 2] /\
+  map rname (query_m_v0 selected (flat_map mspec_entries c19_example_mfile) c19_example_mfile 0 1 50) = [0; 1; 2; 0; 1; 2].
+Proof. vm_compute. repeat split; reflexivity. Qed.
 
 Example c19_example_mfile_fits : Forall mcont_fits c19_example_mfile.
 Proof. repeat constructor; cbn; unfold u64_lim; try reflexivity; intros H; discriminate H. Qed.
@@ -380,8 +418,8 @@ Example c19_example_index_of_bytes :
   index_of_bytes32 c19_example_bytes c19_example_bytes_recs = BOk [mkentry (Some 0) (Some 20) 1 155 187 511].
 Proof. vm_compute. reflexivity. Qed.
 
-(* the hypotheses of c19_query_unmapped_equals_scan are satisfiable: a sorted file whose last
-   container holds the unplaced records *)
+(* the hypotheses of c19_query_unmapped_v0_equals_scan_tail_clean are satisfiable: a sorted file
+   whose last container holds the unplaced records *)
 Definition c19_example_ufile : list mcont :=
   [ mkmcont 300 24 900 [wslice 180 320 [mkrec 0 (Some 0) 5 9 false; mkrec 1 (Some 0) 7 7 true];
                         wslice 500 400 [mkrec 2 (Some 0) 40 44 false]];
